@@ -124,5 +124,33 @@ func TestGovcBoundedC12Inheritance(t *testing.T) {
 			}
 		}
 	}
+	// two revisions of one module side by side: every node of either tree is attributed to the module
+	{
+		evals++
+		ms := NewModules()
+		for i, src := range []string{
+			`module fv { namespace "urn:fv"; prefix fv; revision 2020-01-01; container c { leaf a { type string; } } }`,
+			`module fv { namespace "urn:fv"; prefix fv; revision 2021-01-01; container c { leaf a { type string; } leaf b { type string; } } }`,
+			`module other { namespace "urn:other"; prefix o; import fv { prefix fv; } augment "/fv:c" { leaf from-other { type string; } } }`} {
+			if err := ms.Parse(src, fmt.Sprintf("rev%d.yang", i)); err != nil {
+				fmt.Printf("GOVC-FAIL name=c12-inheritance fixed case does not parse: %v\n", err)
+			}
+		}
+		if errs := ms.Process(); len(errs) > 0 {
+			fmt.Printf("GOVC-FAIL name=c12-inheritance two revisions of one module: %v\n", errs)
+		}
+		for _, k := range []string{"fv@2020-01-01", "fv@2021-01-01"} {
+			c := ToEntry(ms.Modules[k]).Dir["c"]
+			for name, want := range map[string]string{"a": "fv", "from-other": "other"} {
+				n := c.Dir[name]
+				if n == nil {
+					continue // (the augment lands in the latest revision only)
+				}
+				if got, err := n.InstantiatingModule(); err != nil || got != want {
+					fmt.Printf("GOVC-FAIL name=c12-inheritance %s /c/%s: InstantiatingModule() = %q, %v; want %q\n", k, name, got, err, want)
+				}
+			}
+		}
+	}
 	fmt.Printf("GOVC-BOUNDED name=c12-readonly-and-namespace-vs-model bound=%d_random_schemas_(groupings_across_modules,_actions,_config_statements_at_every_level,_augments;_seed_%d;_%d_invalid)_+_18_fixed_paths evaluations=%d distinct=%d\n", schemas, seed, invalid, evals, nodes)
 }
